@@ -77,8 +77,11 @@ class Prop(PropBase):
 
     def _ref(self, case, z):
         u = self.u
-        return {"none": None, "top": z.max_freq, "bottom": z.min_freq, "above": z.max_freq + 3 * z.bandwidth,
+        r = {"none": None, "top": z.max_freq, "bottom": z.min_freq, "above": z.max_freq + 3 * z.bandwidth,
                 "below": z.min_freq * 0.75, "inside": z.center_freq + 0.3 * z.chan_bw}[case["ref"]]
+        if r is not None and case.get("seed", len(str(case))) % 5 == 2:
+            r = r.to(self.u.GHz if case.get("seed", 0) % 2 else self.u.Hz)      # the same reference frequency in another unit
+        return r
 
     def _dm(self, case, z, ref):
         pb, np = self.pb, self.np
